@@ -25,6 +25,26 @@ CHECKS = {
     "C06": den("TLC checks all 1440 minutes x all clock notations at rule level and the latent anchoring (first such minute strictly after the reference minute, < 24 h) incl. equality and roll-over cases; the real productions and the real post-processing step are called for all minutes, ctparse() on every notation, judged by TLC. One recorded finding (bare hour + part of day).", "DESIGN.md section 4 (C06)"),
     "C07": den("TLC checks all 24x24 hour pairs x minute variants x contexts (date, latent, bare) for from=A, to=B after the stated wrap, from<to, <=24h, ordered/reversed date pairs and the four half-open forms, on Rules composed with Postprocess; real productions called on all pairs; ctparse() on all pairs x joiners x contexts judged by TLC.", "DESIGN.md section 4 (C07)"),
     "C08": den("TLC checks N in 0..120 x units, all number words, half forms, date+for+duration on every start date of the cycle with dateutil month clipping, and the duration/date-range consistency rule; every number word x unit word of the frozen lexicon goes through the tree's own pattern and production (token meaning from the lexicon), ctparse() end to end, judged by TLC.", "DESIGN.md section 4 (C08)"),
+    "C12": ("model_checking",
+            "TLA+ spec Sessions.tla: TLC enumerates every schedule of 2-3 suspended candidate streams (incl. abandonment, scorer crash); each is replayed on real generators; histories, threads and hash seeds recorded and judged by the TLC trace module SessionsTrace against fresh-process results",
+            "TLC proves on the model that streams only touch frame-local state and exports ALL interleavings for small streams; every one is replayed on real ctparse_gen generators and each yielded tuple (resolution, span, score, production, subject, labels) compared with a fresh single-call interpreter; random call histories (with abandoned streams and failing calls), 8 threads at 1 us switch interval and several PYTHONHASHSEED values are judged the same way, with digests of the rule registry / patterns / model / arguments before and after. Rule applications are additionally judged argument-pure (RulesTrace) and candidates stable after yield (DeriveText). Exhaustive for the generator schedules, exploration for threads.",
+            "trusts: TLC; digests (sha1 of the canonical JSON of the result tuple / registry dump / pickled model); CPython's GIL scheduling is not controllable",
+            "DESIGN.md section 4 (C12)"),
+    "C13": ("model_checking",
+            "TLA+ spec SearchImpl.tla (deadline may expire at any point, work counters) model-checked by TLC; runs of the real engine under a virtual clock for EVERY expiry point validated as SearchImpl behaviours (SearchTrace) and against DeadlineTrace",
+            "TLC explores every scorer x every expiry point on small rewrite systems (bounded work between checks with a bound that does not mention the number of candidate sequences, termination, no timeout without deadline). The real _ctparse is run on synthetic grammars with the deadline placed between every two clock reads (virtual clock): each run must be a behaviour of SearchImpl, must check the deadline before every candidate sequence and every expansion, and its output must be a prefix of the untimed output. On the real grammar every expiry point of inputs with up to 81 candidate sequences is judged by DeadlineTrace (work per interval, nothing after the raising check, prefix, ctparse() = best of the partial stream, no raise, timeout 0 = no limit).",
+            "trusts: TLC; the virtual clock replaces ctparse.timers.perf_counter (one tick per read); work is observed through _filter_rules / scorer= / apply_rule",
+            "DESIGN.md section 4 (C13)"),
+    "C14": ("model_checking",
+            "TLA+ specs Api.tla + SearchImpl.tla model-checked by TLC (all small streams / all scorers); ctparse() vs list(ctparse_gen()) observations judged by the TLC trace module ApiTrace; engine runs on synthetic grammars validated by SearchTrace",
+            "TLC proves on Api.tla that the single-result call returns a maximal-score element of any stream (empty result iff empty stream) and on SearchImpl that a value is re-emitted only with a strictly higher score, for every scorer incl. ties. The real pair of entry points is run under identical arguments (seeded random scorer) over corpus + edge texts x option grid and judged by the same predicate; scores enter TLC as exact ranks + finiteness flags.",
+            "trusts: TLC; scores projected to ranks within one observation (order-preserving); no timeout",
+            "DESIGN.md section 4 (C14)"),
+    "C15": ("model_checking",
+            "TLA+ spec SearchImpl.tla (code-shaped worklist search over an arbitrary ground rewrite system) model-checked by TLC for soundness/completeness/dedup/termination under every scorer; the REAL engine run on synthetic grammars and every run validated as a SearchImpl behaviour (SearchTrace); real-grammar candidates replayed as derivations by TLC (DeriveText + Rules.tla)",
+            "Three legs: (1) TLC: Sound, Complete (depth 0), StrictlyBetter, DepthOK, termination for all score assignments on small rewrite systems; (2) the real _ctparse executes those and further rewrite systems registered through rule(), under seeded integer scorers and depth limits 0/1/2; TLC accepts each recorded run only if it is a behaviour of SearchImpl, and independently judges what was streamed against the closure of the rewrite system (unsound / incomplete / untruthful production trace); (3) on the real rule base every streamed candidate's production trace is replayed rule by rule with Rules!Apply (TLC infers the windows), small texts get the full closure (sound + complete), every rule application is judged against Apply and for argument purity, candidates must not change after their yield.",
+            "trusts: TLC; candidate sequences (lexing + sequence enumeration) are observed, not modelled; projections of harness/qa.py",
+            "DESIGN.md section 4 (C15)"),
     "C20": den("TLC checks the gluing rules for every dated value x every minute (homomorphism at rule level); end to end, three parses per case (day, clock with latent off, both) over day forms x clock notations x orders x connectors are judged by the TLA+ predicate GlueOK and the declarative day/clock denotations. Rejections are diagnosed (exhaustive re-parse) so that beam-pruning findings are told from composition defects. Three recorded findings (depth-limit pruning).", "DESIGN.md section 4 (C20)"),
 }
 
